@@ -531,3 +531,16 @@ for _p in ('C08', 'C09', 'C03'):
         PROPS[_p]['assumptions'] = PROPS[_p]['assumptions'] + STORE_ASSUME
     PROPS[_p].setdefault('verus_only', {})
     PROPS[_p]['verus_only']['store'] = PROPS[_p]['verus_only'].get('store', []) + [r'Store::update$']
+
+# C03 also rests on "a put never overwrites a held entry": the physical-presence check (a liveness-aware is_present admits a second
+# incarnation whose stale first id later removes the live key)
+PROPS['C03']['verus_only']['store'] = PROPS['C03']['verus_only']['store'] + [r'Store::is_present$']
+PROPS['C03']['kani']['quick'] = PROPS['C03']['kani']['quick'] + ['store/is_present_n2']
+PROPS['C03']['kani_meta'].update(BND(['store/is_present_n2']))
+
+# C09 "changing the time-to-live moves the deadline accordingly": the deadline the SWEEPER acts on is the ticker entry, so the upsert's
+# ticker calls (old / new expiry in the right places) and the ticker's update belong to C09 as well
+PROPS['C09']['verus'] = PROPS['C09']['verus'] + ['api', 'ticker']
+PROPS['C09']['verus_only']['api'] = [r'CacheD::put_or_update$', r'CacheD::put_with_ttl$', r'CacheD::put_with_weight_and_ttl$']
+PROPS['C09']['verus_only']['ticker'] = [r'TTLTicker::put$', r'TTLTicker::update$', r'TTLTicker::delete$']
+PROPS['C09']['assumptions'] = PROPS['C09']['assumptions'] + API_ASSUME + TICKER_ASSUME
